@@ -22,7 +22,7 @@ RULE = ("Each case runs a seeded history of up to 40 (thorough 100) operations o
         "is a crash case: the history runs in a forked child that acknowledges each finished operation over a pipe and dies by "
         "os._exit at the N-th executed line (N from the tape, by sys.settrace) of hio's storage modules; the parent reopens and "
         "requires the durable content of both containers to equal the model after the last acknowledged operation or after the "
-        "operation in flight. Non-trivial: >= 1 reopen or crash with a non-empty container that had seen a duplicate value. "
+        "operation in flight. In a third of the in-process cases every injected container is constructed with content of its own: written through where nothing is stored under the key, replaced by the stored content otherwise. Non-trivial: >= 1 reopen or crash with a non-empty container that had seen a duplicate value. "
         "Distinct: digest of the history (+ crash line).")
 COMPONENTS = dict(real=["hio.base.hier.durqing.Durq", "hio.base.hier.dusqing.Dusq", "hio.base.hier.holding.Hold", "hio.base.during.Subery/Duror/DomIoSuber/DomIoSetSuber", "LMDB"],
                   stub=["process death (fork + os._exit at a traced line)"])
